@@ -97,9 +97,11 @@ def handleEvent (st : DState) (w : World) (ev : Json) : DState × Json :=
     | .ok funds =>
       match parseExec msgJ with
       | .error _ =>
-        -- the message does not deserialize: the runtime rejects it before the contract runs
-        (st, Json.mkObj [("committed", .bool false), ("calls", Json.arr #[
-          jCallExec build sender fundsJ msgJ (.error .parse)])])
+        -- the message does not deserialize: the attached funds are moved first (as for any execution; if
+        -- that fails the contract is never called), then the entry point refuses the bytes
+        let fundsOk := funds.isEmpty || (bankMove w.bal sender w.self funds).isSome
+        (st, Json.mkObj [("committed", .bool false), ("calls", Json.arr (if fundsOk then #[
+          jCallExec build sender fundsJ msgJ (.error .parse)] else #[]))])
       | .ok m => fin (.exec sender funds m faults txi)
   | "hook" =>
     let channel := getStr ev "channel"
@@ -110,9 +112,11 @@ def handleEvent (st : DState) (w : World) (ev : Json) : DState × Json :=
       let fj := Json.arr #[jCoin coin]
       match parseExec msgJ with
       | .error _ =>
-        let acct := (deriveIntermediateSender channel ns w.chainPrefix).getD ""
-        (st, Json.mkObj [("committed", .bool false), ("calls", Json.arr #[
-          jCallExec build acct fj msgJ (.error .parse)])])
+        match deriveIntermediateSender channel ns w.chainPrefix with
+        | none => (st, Json.mkObj [("committed", .bool false), ("calls", Json.arr #[])])
+        | some acct =>
+          (st, Json.mkObj [("committed", .bool false), ("calls", Json.arr (if coin.amount = 0 then #[] else #[
+            jCallExec build acct fj msgJ (.error .parse)]))])
       | .ok m => fin (.hook channel ns coin m faults) fj
   | "ack" => fin (.ack (getNatD ev "seq") (getBool ev "success"))
   | "timeout" => fin (.timeout (getNatD ev "seq"))
